@@ -34,6 +34,7 @@ def configure(cat_list: list[dict] | None, seed: int) -> None:
         for rec in cat_list:
             _CAT[(rec["dims"][0], rec["dims"][1], rec["var"])] = rec["info"]
     _FRESH.clear()
+    _FRESH_OUTCOME.clear()
 
 
 def seed_value(s: str) -> int:
@@ -41,12 +42,56 @@ def seed_value(s: str) -> int:
 
 
 # ---------------------------------------------------------------------------------- construction
+PARAM_AGGS = ("Constant", "UPGrad", "DualProj", "AlignedMTL", "ConFIG", "GradDrop")
+MAX_PARAM_LEN = 5
+
+
+def param_entry(agg: str, i: int) -> tuple[int, int]:
+    """Entry i (1-based) of the constant parameter vector: ParamEntry of AggContract.tla (the table
+    exported by TLC is compared with this function by ``check_param_table``)."""
+    if agg == "Constant":
+        return ((1 if i % 2 == 1 else -1) * (i + 1), 7)
+    if agg == "GradDrop":
+        return (i, 7)
+    return (3 * i - 2, 11)
+
+
+def param_tensor(agg: str, a: int, dt: torch.dtype) -> torch.Tensor:
+    """The exact rationals rounded (once) to float64, then to the parameter's dtype."""
+    return torch.tensor([n / d for n, d in (param_entry(agg, i) for i in range(1, a + 1))],
+                        dtype=torch.float64).to(dt)
+
+
+def check_param_table(par: dict | None, scenarios: list[dict]) -> list[str]:
+    """Model and binding must agree on the parameter vectors, and no entry of a float64 parameter may
+    survive a round trip through float32 (else a mixed-dtype history could not tell a parameter
+    from a representation of it derived for the other dtype)."""
+    bad = []
+    if not par or sorted(par) != sorted(PARAM_AGGS):
+        return [f"parameter table of the model missing / other classes: {sorted(par or {})}"]
+    for agg in PARAM_AGGS:
+        want = [list(param_entry(agg, i)) for i in range(1, MAX_PARAM_LEN + 1)]
+        if [list(q) for q in par[agg]] != want:
+            bad.append(f"{agg}: model {par[agg]} != binding {want}")
+        p64 = param_tensor(agg, MAX_PARAM_LEN, torch.float64)
+        if bool((p64.float().double() == p64).any()):
+            bad.append(f"{agg}: a parameter entry is representable in float32: {p64.tolist()}")
+    for scn in scenarios:
+        k = scn["kind"]
+        want = [list(param_entry(k["agg"], i)) for i in range(1, k["a"] + 1)] \
+            if k["agg"] in PARAM_AGGS and k["pdt"] != "any" else []
+        if [list(q) for q in scn["param"]] != want:
+            bad.append(f"{k['name']}: exported parameter {scn['param']} != binding {want}")
+            break
+    return bad
+
+
 def make_agg(kind: dict):
     from torchjd.aggregation import (MGDA, AlignedMTL, CAGrad, ConFIG, Constant, DualProj, GradDrop, IMTLG,
                                      Krum, Mean, PCGrad, Random, Sum, TrimmedMean, UPGrad)
     agg, a, b = kind["agg"], kind["a"], kind["b"]
     dt = DT.get(kind["pdt"], torch.float64)
-    pref = torch.arange(1, a + 1, dtype=dt) if a > 0 else None
+    pref = param_tensor(agg, a, dt) if a > 0 and agg in PARAM_AGGS else None
     if agg == "Mean":
         return Mean()
     if agg == "Sum":
@@ -70,9 +115,9 @@ def make_agg(kind: dict):
     if agg == "ConFIG":
         return ConFIG(pref_vector=pref)
     if agg == "Constant":
-        return Constant(torch.tensor([(-1.0) ** i * (i + 1) / 2 for i in range(a)], dtype=dt))
+        return Constant(pref)
     if agg == "GradDrop":
-        return GradDrop(leak=torch.linspace(0, 1, a, dtype=dt)) if a > 0 else GradDrop()
+        return GradDrop(leak=pref) if a > 0 else GradDrop()
     if agg == "TrimmedMean":
         return TrimmedMean(a)
     if agg == "Krum":
@@ -153,6 +198,7 @@ def observe(A, X: torch.Tensor) -> tuple[dict, torch.Tensor | None]:
 
 # ---------------------------------------------------------------------------------- memo oracle
 _FRESH: dict = {}
+_FRESH_OUTCOME: dict = {}
 
 
 def _ckey(kind: dict, c: dict) -> tuple:
@@ -166,7 +212,7 @@ def fresh_results(kind: dict, c: dict, seed: str, stream: list | None = None, re
     key = (_ckey(kind, c), seed, str(stream))
     if key in _FRESH:
         return _FRESH[key]
-    outs = []
+    outs, outcomes = [], []
     for _ in range(repeats):
         torch.manual_seed(seed_value(seed))
         for req in stream or []:
@@ -180,8 +226,15 @@ def fresh_results(kind: dict, c: dict, seed: str, stream: list | None = None, re
         A = make_agg(kind)
         obs, out = observe(A, make_tensor(c))
         outs.append(out)
+        outcomes.append(obs["outcome"])
     _FRESH[key] = outs
+    _FRESH_OUTCOME[key] = outcomes
     return outs
+
+
+def fresh_outcomes(kind: dict, c: dict, seed: str, stream: list | None = None) -> list[str]:
+    fresh_results(kind, c, seed, stream)
+    return _FRESH_OUTCOME[(_ckey(kind, c), seed, str(stream))]
 
 
 def within_spread(out: torch.Tensor, fresh: list, dtype: str) -> bool:
@@ -196,6 +249,18 @@ def within_spread(out: torch.Tensor, fresh: list, dtype: str) -> bool:
     if not bool(torch.isfinite(o).all()):
         return bool(torch.equal(torch.isfinite(o), torch.isfinite(lo)))
     return bool(((o >= lo - tol) & (o <= hi + tol)).all())
+
+
+def same_as_fresh(kind: dict, c: dict, seed: str, stream: list | None, obs: dict, out) -> tuple[bool, list]:
+    """Does this call do what history-free repeats (fresh instance, same seed, same stream position)
+    do: the same outcome class; for a vector the same dtype and a value within their spread."""
+    fresh = fresh_results(kind, c, seed, stream)
+    outcomes = fresh_outcomes(kind, c, seed, stream)
+    if out is None:
+        return all(o == obs["outcome"] for o in outcomes), outcomes
+    if any(f is None or f.dtype != out.dtype for f in fresh):
+        return False, [o if f is None else f"vector[{DTN.get(f.dtype, f.dtype)}]" for o, f in zip(outcomes, fresh)]
+    return within_spread(out, fresh, c["dtype"]), [f.tolist() for f in fresh][:1]
 
 
 # ---------------------------------------------------------------------------------- S -> C replay
@@ -227,7 +292,8 @@ def judge(kind: dict, st: dict, obs: dict) -> str | None:
 def run_scenario(scn: dict) -> dict:
     """Executes one exported history on one real instance."""
     kind = scn["kind"]
-    res = {"fails": [], "drift": [], "calls": 0, "memo_checked": 0, "out": None, "weights": None, "obs": []}
+    res = {"fails": [], "drift": [], "calls": 0, "memo_checked": 0, "memo_xdt": 0, "out": None, "weights": None,
+           "obs": []}
     torch.manual_seed(seed_value("s0"))
     try:
         A = make_agg(kind)
@@ -251,22 +317,32 @@ def run_scenario(scn: dict) -> dict:
             continue
         if st["expect"] == "ValueError" and st["impl"] != "VE_" + obs["cause"] and obs["cause"] != "unknown":
             res["drift"].append(f"order of checks: model says {st['impl']}, code raised for '{obs['cause']}'")
-        if st["expect"] == "vector" and out is not None:
+        if st.get("cross"):
+            seen = "vector" if obs["outcome"] == "vector" else "Err_other"
+            if st["impl"] != seen:
+                res["drift"].append(f"matrix dtype != parameter dtype: model says {st['impl']}, code did {obs['outcome']}")
+        if st["expect"] == "vector" and out is None:
+            continue
+        if st["expect"] in ("vector", "unspecified"):
+            # "its result does not depend on earlier calls": also where the statement leaves the outcome
+            # open (exception class, or dtype and bits of the vector)
             rng = st["rng"]
             if st["memo"] == "property":
-                fresh = fresh_results(kind, c, rng["seed"])
+                same, fresh = same_as_fresh(kind, c, rng["seed"], None, obs, out)
                 res["memo_checked"] += 1
-                if not within_spread(out, fresh, c["dtype"]):
+                if st.get("xdt") and st["expect"] == "vector":
+                    res["memo_xdt"] += 1
+                if not same:
                     res["fails"].append({"at": i, "clause": "depends_on_history_or_not_reproducible",
                                          "class": class_text(c), "want": "the result of a fresh instance "
-                                         f"after the same seed: {[f.tolist() if f is not None else None for f in fresh][:1]}",
-                                         "got": out.tolist(), "obs": obs})
+                                         f"after the same seed: {fresh}",
+                                         "got": out.tolist() if out is not None else obs["outcome"], "obs": obs})
             else:
-                fresh = fresh_results(kind, c, rng["seed"], rng["stream"])
-                if not within_spread(out, fresh, c["dtype"]):
+                same, _ = same_as_fresh(kind, c, rng["seed"], rng["stream"], obs, out)
+                if not same:
                     res["drift"].append("stream position: result differs from a fresh instance after replaying "
                                         "the model's draw requests (draw accounting of the implementation layer)")
-            if scn["mode"] == "single":
+            if scn["mode"] == "single" and st["expect"] == "vector":
                 res["out"] = out.double().tolist()
     return res
 
@@ -362,10 +438,14 @@ def random_kind(rng: random.Random) -> dict:
 
 
 def random_class(rng: random.Random, kind: dict, prev: list[dict]) -> dict:
-    dtype = kind["pdt"] if kind["pdt"] != "any" else rng.choice(["f32", "f64"])
+    # a kind with a parameter vector mostly sees its parameter's dtype, yet also the other one
+    if kind["pdt"] == "any":
+        dtype = rng.choice(["f32", "f64"])
+    else:
+        dtype = kind["pdt"] if rng.random() < 0.6 else ("f32" if kind["pdt"] == "f64" else "f64")
     if prev and rng.random() < 0.25:                 # repeat an earlier input (memo), possibly re-typed
         c = dict(rng.choice(prev))
-        if kind["pdt"] == "any" and rng.random() < 0.3:
+        if rng.random() < 0.3:
             c["dtype"] = dtype
             lo, hi = (-39, 48) if dtype == "f32" else (-332, 331)
             c["e"] = min(max(c["e"], lo), hi)
@@ -416,9 +496,9 @@ def random_episode(ep: int, seed: int) -> dict:
         state = torch.get_rng_state()
         obs, out = observe(A, make_tensor(c))
         after = torch.get_rng_state()
-        if out is not None:
-            fresh = fresh_results(kind, c, last_seed, None, repeats=3)
-            obs["eqfresh"] = "yes" if within_spread(out, fresh, c["dtype"]) else "no"
+        if obs["outcome"] != "ValueError":
+            same, _ = same_as_fresh(kind, c, last_seed, None, obs, out)
+            obs["eqfresh"] = "yes" if same else "no"
             torch.set_rng_state(after)
         cj = {k: v for k, v in c.items() if k != "J"}
         steps.append({"op": "call", "s": "-", "c": cj, "obs": obs, "J": c.get("J"), "e": c["e"]})
